@@ -37,14 +37,14 @@ def showDim (d : Dim) : String := ",".intercalate (d.map showInt)
 def showPfx (p : Pfx) : String := s!"{p.base}:{p.exp}"
 def showFactors (fs : Factors) : String := ",".intercalate (fs.map (fun f => s!"{f.1}:{f.2}"))
 
-def showUnitRec (u : UnitRec) : String :=
-  s!"{showPfx u.pfx}|{showFactors u.factors}|{showDim u.dim}|{";".intercalate u.names}|{";".intercalate u.syms}"
+def showUnitRec (s : St) (i : Nat) (u : UnitRec) : String :=
+  s!"{showPfx u.pfx}|{showFactors u.factors}|{showDim u.dim}|{";".intercalate (s.namesOf i)}|{";".intercalate (s.symsOf i)}"
 
 def showAssoc (l : List (String × Nat)) : String :=
   "\n".intercalate (l.map (fun p => s!"{p.1}={p.2}"))
 
 def stateDigest (s : St) : String :=
-  let us := hashStr ("\n".intercalate (s.units.map showUnitRec))
+  let us := hashStr ("\n".intercalate ((List.range s.units.length).map (fun i => showUnitRec s i (s.unit! i))))
   let bn := hashStr (showAssoc s.unitByName)
   let bs := hashStr (showAssoc s.unitBySym)
   let pn := hashStr ("\n".intercalate (s.pfxByName.map (fun p => s!"{p.1}={showPfx p.2}")))
@@ -156,15 +156,15 @@ def handle (w : W) (line : String) : W × String :=
   let f := line.splitOn "\t"
   let bad : W × String := (w, "BAD")
   let unitOp (o : Op) : W × String :=
-    if o.refs.all (validU w) then
-      let (s', out) := step w.st o
+    if o.ok w.st then
+      let (s', out) := stepC w.st o
       ({ w with cv := { w.cv with st := s' } }, showOut out)
     else bad
   match f with
   | ["STATE"] => (w, "ok\t" ++ stateDigest w.st ++ s!" graph={hashStr (showGraph w)}")
   | ["U", "info", a] => match parseU a with
       | some i => match w.st.units[i]? with
-        | some u => (w, "ok\t" ++ showUnitRec u)
+        | some u => (w, "ok\t" ++ showUnitRec w.st i u)
         | none => bad
       | none => bad
   | ["U", "mul", a, b] => match parseU a, parseU b with
